@@ -1,18 +1,24 @@
 import Arimaa.Props.C02
 import Arimaa.Lemmas.RsAgreeStep
+import Arimaa.Gen.Bridge.GameState_take_action
+import Arimaa.Gen.Bridge.PieceBoardState_trapped_piece_bits
+import Arimaa.Gen.Bridge.PieceBoard_remove_trapped_pieces
+import Arimaa.Gen.Bridge.PieceBoard_take_action
 
 /-!
 # C02 — the property at the level of the REGENERATED code
 
 `Gen/Rs.lean` is written by `tools/rs2lean2.py` from the current text of engine.rs / zobrist.rs on every
-run; `Lemmas/RsAgree*.lean` prove that each regenerated function equals
-`Res.guard (hand panic guard) (hand total function)`.  This file puts the agreement theorems of the
-functions C02 rests on into the property's proof closure and restates them as one named obligation
-(`C02_code_agrees`), plus corollaries that speak about the regenerated functions directly.  A change of
-the Rust text of one of these functions breaks an obligation here without any test having to find the input.
+run.  `Gen/Bridge/<fn>.lean` (generated) proves `@Rs.fn = @RsBase.fn` — the current text against the
+baseline text — and `Lemmas/RsAgree*.lean` prove that each baseline function equals
+`Res.guard (hand panic guard) (hand total function)`.  This file puts both, for the functions C02 rests
+on, into the property's proof closure and restates them as one named obligation (`C02_code_agrees`) about
+the CURRENT functions, plus corollaries that speak about them directly.  A change of the Rust text of one
+of these functions that alters behaviour breaks an obligation here without any test having to find the input.
+(written by tools/mkrprops.py)
 -/
 namespace Arimaa
-open Gen GameState Arimaa.Gen.Rs Arimaa.Rt
+open Gen GameState Arimaa.Gen.Rs Arimaa.Rt Arimaa.Gen.Bridge
 
 theorem C02_value_of_ok {α : Type} {x : Res α} {p : Bool} {v w : α} (h : x = Res.guard p v) (hx : x = .ok w) :
     p = false ∧ w = v := by
@@ -20,16 +26,21 @@ theorem C02_value_of_ok {α : Type} {x : Res α} {p : Bool} {v w : α} (h : x = 
   obtain ⟨hp, hv⟩ := Res.guard_eq_ok.mp hx
   exact ⟨hp, hv.symm⟩
 
-/-- the agreement theorems C02 rests on, as one obligation -/
+/-- the agreement theorems C02 rests on, about the CURRENT functions, as one obligation -/
 theorem C02_code_agrees :
     (∀ (s : GameState) (a : Action), GameState_take_action s a = Res.guard (s.takeActionPanics a) (s.takeAction a)) ∧
     (∀ (b : Board) (sq : Nat) (d : Dir), PieceBoard_take_action b (.move sq d) = Res.guard (sqBitPanics sq) (b.takeMove sq d)) ∧
     (∀ b : Board, PieceBoard_remove_trapped_pieces b = (b.removeTrappedPieces.2, b.removeTrappedPieces.1)) ∧
     (∀ b : Board, PieceBoardState_trapped_piece_bits b = b.trappedPieceBits) :=
-  ⟨RsAgree.take_action_eq, RsAgree.board_take_action_move, RsAgree.remove_trapped_pieces, RsAgree.trapped_piece_bits⟩
+  ⟨(by simp only [bridge_GameState_take_action]; exact RsAgree.take_action_eq),
+   (by simp only [bridge_PieceBoard_take_action]; exact RsAgree.board_take_action_move),
+   (by simp only [bridge_PieceBoard_remove_trapped_pieces]; exact RsAgree.remove_trapped_pieces),
+   (by simp only [bridge_PieceBoardState_trapped_piece_bits]; exact RsAgree.trapped_piece_bits)⟩
 
 /-- whatever the regenerated `take_action` returns is the successor the C02 theorems are about -/
-theorem C02_code_successor (s s' : GameState) (a : Action) (h : GameState_take_action s a = .ok s') :
-    s' = s.takeAction a := (C02_value_of_ok (RsAgree.take_action_eq s a) h).2
+theorem C02_code_successor (s r : GameState) (a : Action)
+    (h : GameState_take_action s a = .ok r) : r = s.takeAction a := by
+  simp only [bridge_GameState_take_action] at h
+  exact (C02_value_of_ok (RsAgree.take_action_eq s a) h).2
 
 end Arimaa
